@@ -28,6 +28,7 @@ package cache
 
 import (
 	"bytes"
+	"errors"
 	"sync"
 	"time"
 
@@ -54,6 +55,9 @@ const (
 
 // defaultHitForPassSeconds default hit for pass: 300 seconds
 const defaultHitForPassSeconds = 300
+
+// ErrInvalidStoreData the data restored from store is not a valid hit or hit for pass cache
+var ErrInvalidStoreData = errors.New("invalid cache data of store")
 
 type (
 	// waitResult the result handed over to a request waiting for a fetching cache
@@ -202,7 +206,23 @@ func (hc *httpCache) initFromStore() (err error) {
 	if err != nil {
 		return
 	}
-	return hc.FromBytes(data)
+	// 先解析至临时对象并校验，避免解析出错或非法的数据（如被截断的记录）影响当前缓存
+	tmp := &httpCache{}
+	err = tmp.FromBytes(data)
+	if err != nil {
+		return
+	}
+	// 只有hit（必须有响应数据）与hit for pass才会保存至store，而且必须有过期时间
+	validStatus := tmp.status == StatusHitForPass ||
+		(tmp.status == StatusHit && tmp.response != nil && tmp.response.StatusCode != 0)
+	if !validStatus || tmp.expiredAt == 0 {
+		return ErrInvalidStoreData
+	}
+	hc.status = tmp.status
+	hc.response = tmp.response
+	hc.createdAt = tmp.createdAt
+	hc.expiredAt = tmp.expiredAt
+	return
 }
 
 // saveToStore save cache to store
